@@ -132,7 +132,13 @@ def run(ctx):
     hpp = rx.parse(hpr.pattern, hpr.flags)
     gp2 = rx.groups(hpp)
     port_group = gp2.get(max(gp2)) if gp2 else None
-    worst = rx.max_repeat_of_class(port_group, lambda fs: fs <= set("0123456789") and len(fs) >= 9) if port_group is not None else None
+    # (the run of characters that can carry value: any class holding the non-zero ASCII digits, whatever else it admits)
+    worst = rx.max_repeat_of_class(port_group, lambda fs: fs >= set("123456789")) if port_group is not None else None
+    pchars = rx.any_chars(port_group, ascii_only=bool(hpr.flags & re.ASCII)) if port_group is not None else None
+    okd = pchars is not None and pchars <= set("0123456789")
+    ctx.ob(R5, URL, "the port group admits ASCII digits only (RFC 3986: port = *DIGIT)", okd,
+           "" if okd else f"the port group admits {sorted(pchars - set('0123456789'))[:6] if pchars is not None else '?'}: under re.UNICODE `\\d` matches every Unicode decimal digit and int() converts them - "
+           "`http://h:\uff18\uff10/` parses to port 80 instead of being rejected")
     ctx.ob(R5, URL, f"port group admits a bounded number of significant digits (max repeat {worst})", worst is not None and worst <= 4,
            "" if worst is not None and worst <= 4 else "an unbounded digit run makes int() quadratic / huge")
 
